@@ -46,6 +46,9 @@ func c04gen(r *gen.R) c04case {
 	if len(hostileTitleLevels) > 0 && r.P(8) {
 		c.lvl = gen.Pick(r, hostileTitleLevels)
 	}
+	if r.P(5) {
+		c.lvl = gen.Pick(r, unregisteredLevels)
+	}
 	if c.lvl == slog.AlwaysLevel && strings.Trim(c.msg, "\n\r \t") == "" {
 		c.lvl = slog.InfoLevel // blank Print is the one-newline special case (C02)
 	}
@@ -173,6 +176,27 @@ func c04main(c *Ctx) {
 			c.R.Add("records_through_a_derived_log_slog_handler_with_a_younger_sibling", 1)
 			c.R.Max("handler_derivation_steps", int64(steps+1))
 		}
+		// some of the attributes may be bound to the logger instead of given to the call - as Attr objects that ANOTHER
+		// logger holds too and re-binds (Set) under the same keys afterwards: this logger's record shows what IT was given
+		callKVs := cs.kvs
+		if !viaHandler && !tsKnown && cs.dups == 0 && len(cs.kvs) >= 2 && r.P(10) {
+			k := r.Range(1, len(cs.kvs)-1)
+			ok := true
+			for _, kv := range cs.kvs[:k] {
+				ok = ok && kv.Key != "" && kv.Val.Kind != "group"
+			}
+			if ok {
+				shared := attrsOf(cs.kvs[:k])
+				lg.SetAttrs(shared...)
+				other := newRoot("other", FJSON, w, slog.AlwaysLevel)
+				other.SetAttrs(shared...)
+				for _, kv := range cs.kvs[:k] {
+					other.Set(kv.Key, "re-bound by the other logger")
+				}
+				callKVs = cs.kvs[k:]
+				c.R.Add("records_with_logger_bound_attributes_another_logger_holds_too", 1)
+			}
+		}
 		evs := capture(log, func() {
 			if viaHandler {
 				_ = older.Handle(bg, rec)
@@ -182,7 +206,7 @@ func c04main(c *Ctx) {
 				lg.WriteThru(bg, cs.lvl, ts, thePC, cs.msg, attrsOf(cs.kvs))
 				return
 			}
-			lg.LogAttrs(bg, cs.lvl, cs.msg, mixedArgs(cs.kvs)...)
+			lg.LogAttrs(bg, cs.lvl, cs.msg, mixedArgs(callKVs)...)
 		})
 		desc := describe(FJSON, cs.name, cs.msg, cs.lvl, cs.caller, cs.kvs)
 		if tsKnown {
@@ -275,7 +299,13 @@ func c04check(payload []byte, cs c04case) (out []cv) {
 			out = append(out, cv{"envelope-logger", fmt.Sprintf("logger member %s != name %q", l.Brief(), cs.name)})
 		}
 	}
-	if l := n.Get("level"); l == nil || l.Kind != oracle.JStr || l.Str != match.ReplInvalid(titleOf(cs.lvl)) {
+	if l := n.Get("level"); l == nil || l.Kind != oracle.JStr {
+		out = append(out, cv{"envelope", fmt.Sprintf("level member %s is not a string", l.Brief())})
+	} else if isUnregistered(cs.lvl) {
+		if why := levelNameProblem(l.Str, cs.lvl); why != "" {
+			out = append(out, cv{"envelope", why})
+		}
+	} else if l.Str != match.ReplInvalid(titleOf(cs.lvl)) {
 		out = append(out, cv{"envelope", fmt.Sprintf("level member %s != %q", l.Brief(), titleOf(cs.lvl))})
 	}
 	if m := n.Get("msg"); m == nil || m.Kind != oracle.JStr || m.Str != match.ReplInvalid(cs.msg) {
